@@ -2,10 +2,10 @@
    the statements are pinned here so they cannot be quietly weakened.
    Model: C01/Model.v (code-array reader, general encoder), Pool.v, Resolve.v, Attr.v; generated
    tables: C01/Opcodes.v, C01/Tables.v (regenerated from duke's source on every run). *)
-From Coq Require Import Permutation.
-From FB Require Import C01.Model C01.Pool C01.Resolve C01.Attr C01.Fmt C01.Formats C01.ClassFile C01.Annot C01.Mutf8
+From Coq Require Import Permutation Sorted.
+From FB Require Import Base.Sort C01.Model C01.Pool C01.Resolve C01.Attr C01.Fmt C01.Formats C01.ClassFile C01.Annot C01.Mutf8
   C01.Theory1 C01.Theory2 C01.Theory3 C01.Theory4 C01.Theory5 C01.Theory6 C01.Theory7 C01.Theory8 C01.Theory9 C01.Theory10 C01.Theory11
-  C01.Examples C01.Witness C01.Examples2.
+  C01.Theory12 C01.Theory13 C01.Theory14 C01.Theory15 C01.Theory16 C01.Examples C01.Witness C01.Examples2 C01.Examples3.
 
 (* ---- the code array ---------------------------------------------------------------------------- *)
 
@@ -72,6 +72,60 @@ Theorem C01_frames_attached : forall cnt k fs j,
 Proof. exact attach_idx_spec. Qed.
 Print Assumptions C01_frames_attached.
 
+(* StackMapTable, JVMS 4.7.4: the first frame sits at its offset_delta, every later frame at the offset
+   of the frame before it + offset_delta + 1 (the rule is part of [read_code]: C01_read_encode builds
+   the deltas of its hypothesis by exactly this rule, [frame_deltas]) *)
+Theorem C01_frame_offsets_jvms : forall ds os, frame_offsets true 0 ds = Ok os ->
+  length os = length ds /\
+  (forall d, nth_error ds 0 = Some d -> nth_error os 0 = Some d) /\
+  (forall i o d, nth_error os i = Some o -> nth_error ds (S i) = Some d -> nth_error os (S i) = Some (o + d + 1)).
+Proof. exact frame_offsets_jvms. Qed.
+Print Assumptions C01_frame_offsets_jvms.
+
+(* the CLDC StackMap attribute (J2ME / preverified classes): absolute offsets, entries in ANY order
+   [order]; each frame is delivered on the instruction at its offset, exactly as for the
+   StackMapTable with the same frames (fix 15936f8: duke ordered the entries by label id) *)
+Theorem C01_read_encode_cldc : forall ch body bs t order,
+  encode ch body = Some bs -> body <> [] -> N.of_nat (length bs) <= 65535 ->
+  targets_ok body -> tables_ok (length body) t -> Permutation order (t_frames t) ->
+  read_code {| ci_code := bs;
+               ci_exc := map (fun e => match e with (s, e', h) =>
+                              (posf_of (layout ch body) s, posf_of (layout ch body) e', posf_of (layout ch body) h) end) (t_exc t);
+               ci_lines := map (fun e => (posf_of (layout ch body) (fst e), snd e)) (t_lines t);
+               ci_ranges := map (fun e => (posf_of (layout ch body) (fst e),
+                                           posf_of (layout ch body) (snd e) - posf_of (layout ch body) (fst e))) (t_ranges t);
+               ci_frames := [];
+               ci_cldc := Some (map (posf_of (layout ch body)) order);
+               ci_points := map (posf_of (layout ch body)) (t_points t) |}
+  = Ok (expected body t).
+Proof. exact read_encode_cldc. Qed.
+Print Assumptions C01_read_encode_cldc.
+
+(* … at the class-file level: the frames the tree receives from a StackMap attribute are its entries —
+   a permutation: all of them, nothing else — in the order of their offsets; an attribute that lists
+   them in that order (what a preverifier writes) is taken as it is *)
+Theorem C01_cldc_frames_sorted : forall l,
+  Permutation (cldc_sorted l) l /\ Sorted (fun a b => cldc_key a <= cldc_key b) (cldc_sorted l) /\
+  (Sorted (fun a b => cldc_key a <= cldc_key b) l -> cldc_sorted l = l) /\
+  forall st, slot_get a_StackMap (st_slots st) = Some (VList l) -> frames_of_state st = map cldc_norm (cldc_sorted l).
+Proof. exact (fun l => conj (proj1 (cldc_sorted_spec l)) (conj (proj2 (cldc_sorted_spec l)) (conj (cldc_sorted_id l) (fun st => frames_of_state_cldc st l)))). Qed.
+Print Assumptions C01_cldc_frames_sorted.
+
+(* NO JUNK ACCEPTED (the converse of C01_decode_encode / C01_read_encode): whatever code array the
+   reader accepts is the encoding — under the opcode forms and the ignored bytes read off the array
+   itself: the choice function [ch] — of exactly the instruction list it hands to the visitor,
+   provided every branch / switch target it read is the offset of an instruction.  (A target inside an
+   instruction gets a label that no instruction carries; the reader does not notice it, and no
+   instruction list has such a target.)  [Forall (< 256)]: the array consists of bytes. *)
+Theorem C01_no_junk_code : forall ci cr,
+  read_code_raw ci = Ok cr -> Forall (fun x => x < 256) (ci_code ci) ->
+  (forall p i t, In (p, i) (cr_insns cr) -> In t (targets i) -> In t (map fst (cr_insns cr))) ->
+  exists ch body,
+    encode ch body = Some (ci_code ci) /\
+    cr_insns cr = combine (starts_from ch 0 0 body) (map (map_insn (posf_of (layout ch body))) body).
+Proof. exact no_junk_read_code. Qed.
+Print Assumptions C01_no_junk_code.
+
 (* ---- the constant pool -------------------------------------------------------------------------- *)
 
 (* two-slot entries: every entry is found at its slot; the slot after a Long/Double holds nothing *)
@@ -95,6 +149,57 @@ Theorem C01_insn_layout_independent : forall pi p p' b, pool_iso pi p p' -> fora
   resolve_insn p b i = Ok x -> resolve_insn p' (rename_bsm pi b) (rename_insn pi i) = Ok x.
 Proof. exact insn_layout_independent. Qed.
 Print Assumptions C01_insn_layout_independent.
+
+(* the same as an equation, for an exact re-layout (p' holds the renamed entry where p holds one and
+   nothing where p holds nothing): every accessor gives the same answer in both pools, refusals
+   included — hence also the converse direction *)
+Theorem C01_pool_layout_exact : forall pi p p' b,
+  (forall i, pget p' (pi i) = match pget p i with Ok e => Ok (rename_entry pi e) | Err => Err end) ->
+  forall kind i, resolve_kind p' (rename_bsm pi b) kind (pi i) = resolve_kind p b kind i.
+Proof. exact pool_layout_exact. Qed.
+Print Assumptions C01_pool_layout_exact.
+
+Theorem C01_pool_layout_converse : forall pi p p' b, pool_iso_strict pi p p' -> forall kind i v,
+  resolve_kind p' (rename_bsm pi b) kind (pi i) = Ok v -> resolve_kind p b kind i = Ok v.
+Proof. exact pool_layout_converse. Qed.
+Print Assumptions C01_pool_layout_converse.
+
+(* … for the accessors of the class-file formats, the narrowing accessors of element values
+   (B C S Z I J F D) included, and for instruction operands *)
+Theorem C01_acc_layout_exact : forall pi p p', pool_iso_strict pi p p' -> forall k i, acc p' k (pi i) = acc p k i.
+Proof. exact acc_layout_exact. Qed.
+Print Assumptions C01_acc_layout_exact.
+
+Theorem C01_insn_layout_exact : forall pi p p' b, pool_iso_strict pi p p' -> forall (i : ainsn (option nat)),
+  resolve_insn p' (rename_bsm pi b) (rename_insn pi i) = resolve_insn p b i.
+Proof. exact insn_layout_exact. Qed.
+Print Assumptions C01_insn_layout_exact.
+
+(* ---- tag tables against the JVMS ------------------------------------------------------------------ *)
+(* The tables generated from the reader's match arms (Formats.v, regenerated on every run), ordered by
+   tag, ARE the hand-transcribed JVMS tables of Theory12.v: verification_type_info (ITEM_Double = 3,
+   ITEM_Long = 4, …), element_value tags with the kind of constant each denotes, target_info per
+   location, MethodHandle reference kinds with the kind of reference each demands *)
+Theorem C01_tag_tables_match_jvms :
+  by_tag vti_ctor_tbl = jvms_vti /\
+  by_tag ev_consts = jvms_ev_consts /\
+  (ev_enum_tag = 101 /\ ev_class_tag = 99 /\ ev_annot_tag = 64 /\ ev_array_tag = 91) /\
+  by_tag target_class_tbl = jvms_target_class /\ by_tag target_field_tbl = jvms_target_field /\
+  by_tag target_method_tbl = jvms_target_method /\ by_tag target_code_tbl = jvms_target_code /\
+  by_tag3 handle_tbl = jvms_handles /\
+  (vti_plain ++ [vti_object_tag; vti_uninit_tag] = map fst jvms_vti).
+Proof. exact tag_tables_match_jvms. Qed.
+Print Assumptions C01_tag_tables_match_jvms.
+
+(* the model's MethodHandle resolution follows the generated table for every reference_kind *)
+Theorem C01_handle_of_table : forall p k r,
+  handle_of p k r =
+  match handle_acc k handle_tbl with
+  | Some a => do x <- resolve_kind p [] a r; Ok (VHandle k x)
+  | None => Err
+  end.
+Proof. exact handle_of_table. Qed.
+Print Assumptions C01_handle_of_table.
 
 (* ---- attributes --------------------------------------------------------------------------------- *)
 
@@ -146,6 +251,18 @@ Print Assumptions C01_nothing_dropped_refuted.
 Theorem C01_local_variables_visited : mem_str s_visit_local_variables code_visits = true.
 Proof. exact local_variables_visited. Qed.
 Print Assumptions C01_local_variables_visited.
+
+(* debug tables: a Code attribute may carry several LineNumberTable (JVMS 4.7.12), LocalVariableTable and
+   LocalVariableTypeTable attributes; the tree holds every entry of every one of them, in the order of
+   the file, each offset replaced by its instruction ([attr_entries], [lv_entries]: the entries of the
+   attributes of that name, concatenated in list order) *)
+Theorem C01_debug_tables_in_file_order : forall impl p b v ms ml code exc attrs cd,
+  code_parts v = Some (ms, ml, code, exc, attrs) -> build_code impl p b v = Ok cd ->
+  exists ix,
+    k_lines cd = map (map_pcs ix) (flat_map (attr_entries a_LineNumberTable) attrs) /\
+    k_lvs cd = map (map_pcs ix) (flat_map lv_entries attrs).
+Proof. exact debug_tables_in_file_order. Qed.
+Print Assumptions C01_debug_tables_in_file_order.
 
 (* ---- access flags ------------------------------------------------------------------------------- *)
 
@@ -201,6 +318,12 @@ Theorem C01_read_class_encode : forall impl dec c, class_fits impl dec c = true 
 Proof. exact read_class_encode. Qed.
 Print Assumptions C01_read_class_encode.
 
+(* the encoding of a class whose byte payloads (Utf8 entries, code arrays, unknown attributes) are
+   bytes consists of bytes: the class-file theorems are about real files *)
+Theorem C01_encode_class_bytes : forall c, class_bytes_ok c -> Forall (fun x => x < 256) (encode_class c).
+Proof. exact encode_class_bytes. Qed.
+Print Assumptions C01_encode_class_bytes.
+
 (* … and against the description the JVMS / javac give of the structure ([describe false]): equal
    outside the three known findings (F13p a method with Runtime(In)VisibleParameterAnnotations, F13r a
    Record attribute without components, F13t target_type 0x13 inside method_info) *)
@@ -208,6 +331,28 @@ Theorem C01_read_class_spec : forall dec c, class_fits true dec c = true -> know
   read_class true dec (encode_class c) = describe false dec c.
 Proof. exact read_class_spec. Qed.
 Print Assumptions C01_read_class_spec.
+
+(* [known_free] in closed form.  Its first conjuncts ([tags_agree]: no tag on which duke and javac
+   disagree) never fail on the header, the fields and the class attributes, and fail on the methods
+   exactly when some method_info carries a Runtime(In)VisibleTypeAnnotations attribute with a type
+   annotation of target_type 0x13 ([field_target_in_method], a direct test on the structure: F13t) *)
+Theorem C01_tags_agree_closed : forall rs r,
+  tags_agree rs head_fmt r = true /\ tags_agree rs fields_fmt r = true /\ tags_agree rs class_attrs_fmt r = true /\
+  tags_agree rs methods_fmt r = negb (field_target_in_method rs r).
+Proof. exact (fun rs r => match tags_agree_elsewhere rs r with conj a (conj b c) => conj a (conj b (conj c (tags_agree_methods rs r))) end). Qed.
+Print Assumptions C01_tags_agree_closed.
+
+Theorem C01_known_free_closed : forall dec c,
+  known_free dec c =
+  match decode_pool dec (rc_pool c) with
+  | Err => true
+  | Ok p =>
+    negb (field_target_in_method (acc p) (rc_methods c))
+    && match desc_fmt false dec (acc p) class_attrs_fmt (rc_attrs c) with Ok a => no_empty_record a | Err => true end
+    && match desc_fmt false dec (acc p) methods_fmt (rc_methods c) with Ok m => no_param_annotations m | Err => true end
+  end.
+Proof. exact known_free_closed. Qed.
+Print Assumptions C01_known_free_closed.
 
 (* each known class is refuted on a witness: well-formed, described, and duke's reading differs
    (F13p, F13r: something is missing from the tree; F13t: the file is rejected) *)
@@ -285,3 +430,7 @@ Print Assumptions C01_examples2.
 Theorem C01_examples3 : nonvacuous3.
 Proof. exact nonvacuous3_holds. Qed.
 Print Assumptions C01_examples3.
+
+Theorem C01_examples4 : nonvacuous4.
+Proof. exact nonvacuous4_holds. Qed.
+Print Assumptions C01_examples4.
